@@ -1,6 +1,7 @@
 (* C01 property theorems *)
 From Coq Require Import ZArith List Bool Arith.
 From EP Require Import C01.Model C01.Proofs.
+From EP Require Gen.C01Shape.
 Import ListNotations.
 
 (* every path expression returns each selected node once, in document order - for every document, every path of the
@@ -36,23 +37,35 @@ Theorem C01_proximity_position : forall d ax a t n i,
 Proof. exact step_position. Qed.
 Print Assumptions C01_proximity_position.
 
-(* FULL STATEMENT for the axes: forall d a i, axis_nodes_impl d a i = axis_nodes d a i.  False of the pinned code for
-   following:: from a non-element context node and preceding:: from an attribute / namespace node (known finding). *)
+(* FULL STATEMENT for the axes: forall d a i, axis_nodes_impl d a i = axis_nodes d a i.  False of the code only for
+   following:: from an attribute / namespace node (known finding, enshrined by a pinned test). *)
 Theorem C01_axes_refuted : exists d a i, axis_nodes_impl d a i <> axis_nodes d a i.
 Proof.
-  (* <a k="1">t<b/></a> : following:: from the text node is [b] *)
-  exists [mknode 1 (-1) 1; mknode 3 0 5; mknode 4 0 0; mknode 1 0 2], Following, 2. vm_compute. discriminate.
+  (* <a k="1">t<b/></a> : following:: from the attribute node is [t; b] *)
+  exists [mknode 1 (-1) 1; mknode 3 0 5; mknode 4 0 0; mknode 1 0 2], Following, 1. vm_compute. discriminate.
 Qed.
 Print Assumptions C01_axes_refuted.
-(* on element context nodes the two coincide for every axis except preceding from attribute/namespace: *)
-Theorem C01_axes_element_context : forall d a i, kind_of d i = 1%Z -> axis_nodes_impl d a i = axis_nodes d a i.
+(* every axis from every element, document, text, comment and processing-instruction context node, and every axis
+   but following:: from attribute and namespace nodes, is the XDM axis *)
+Theorem C01_axes_partial : forall d a i, (is_attr_or_ns d i = false \/ a <> Following) -> axis_nodes_impl d a i = axis_nodes d a i.
 Proof.
   intros d a i H. unfold axis_nodes_impl. destruct a; auto.
-  - unfold is_attr_or_ns. rewrite H. reflexivity.
-  - rewrite H. reflexivity.
-  - unfold is_attr_or_ns. rewrite H. reflexivity.
+  destruct H as [H|H]; [rewrite H; reflexivity|congruence].
 Qed.
-Print Assumptions C01_axes_element_context.
+Print Assumptions C01_axes_partial.
+(* the iterators before the repairs deviated on text / comment / PI context nodes for following:: and on attribute /
+   namespace nodes for preceding:: and preceding-sibling:: *)
+Theorem C01_axes_old_refuted :
+  (exists d i, axis_nodes_old d Following i <> axis_nodes d Following i /\ is_attr_or_ns d i = false) /\
+  (exists d i, axis_nodes_old d Preceding i <> axis_nodes d Preceding i) /\
+  (exists d i, axis_nodes_old d PrecedingSibling i <> axis_nodes d PrecedingSibling i).
+Proof.
+  split; [|split].
+  - exists [mknode 1 (-1) 1; mknode 3 0 5; mknode 4 0 0; mknode 1 0 2], 2. vm_compute. split; [discriminate|reflexivity].
+  - exists [mknode 1 (-1) 1; mknode 3 0 5; mknode 4 0 0; mknode 1 0 2], 1. vm_compute. discriminate.
+  - exists [mknode 1 (-1) 1; mknode 3 0 5; mknode 4 0 0; mknode 1 0 2], 1. vm_compute. discriminate.
+Qed.
+Print Assumptions C01_axes_old_refuted.
 
 (* <a><x><x><y/></x><y/></x><y/><x><y/></x></a> : //x/following::y  (indices in document order) *)
 Example C01_nonvacuous :
@@ -61,3 +74,9 @@ Example C01_nonvacuous :
   sem d axis_nodes [Step Descendant (TName 3) []; Step Ancestor (TName 2) [PPos 1]] [0] = [1; 2; 6] /\
   strict [0].
 Proof. vm_compute. repeat split; auto. Qed.
+
+(* the statements of /repo that axis_nodes_impl and the proximity positions mirror are present in the source as read on
+   this run (T-data, harness/shape.py -> Gen/C01Shape.v) *)
+Theorem C01_source_shape : Gen.C01Shape.shape_ok = true.
+Proof. reflexivity. Qed.
+Print Assumptions C01_source_shape.
